@@ -26,6 +26,10 @@ class Abort(BaseException):
   """Not an Exception: like KeyboardInterrupt, GeneratorExit, CancelledError."""
 
 
+class Check(AssertionError):
+  """What a failing user-level `assert` raises."""
+
+
 class Frozen(Exception):
   """Rejects attribute assignment (like a frozen dataclass exception)."""
 
@@ -89,6 +93,8 @@ def node_%(n)s(spec):
         raise Abort(spec['id'])
       if spec['raise_kind'] == 2:
         raise Frozen(spec['id'])
+      if spec['raise_kind'] == 3:
+        raise Check(spec['id'])
       raise Boom(spec['id'])
     kind = link['kind']
     if kind == 'plain':
@@ -115,6 +121,8 @@ def node_%(n)s(spec):
       raise Abort(spec['id'])
     if spec['raise_kind'] == 2:
       raise Frozen(spec['id'])
+    if spec['raise_kind'] == 3:
+      raise Check(spec['id'])
     raise Boom(spec['id'])
   H.leave(spec)
   return spec['id']
@@ -234,10 +242,11 @@ def _gen_node(rng, prefix, budget, depth, max_depth, n_shared):
   raise_at = None
   if rng.random() < 0.3:
     raise_at = rng.randrange(len(children) + 1)
-  return {'id': nid, 'children': children, 'raise_at': raise_at,
+  forkp = rng.random() < 0.04
+  return {'id': nid, 'children': children, 'raise_at': raise_at, 'forkp': forkp,
           'local': rng.choice([None, None, None, 'direct', 'dnc', 'dnc', 'escape']),
           'first_in_block': rng.choice([None, None, None, None, 'ENABLED', 'DISABLED', 'UNSPECIFIED']),
-          'raise_kind': (rng.choice([1, 1, 2]) if (raise_at is not None and rng.random() < 0.4) else 0)}
+          'raise_kind': (rng.choice([1, 1, 2, 3, 3]) if (raise_at is not None and rng.random() < 0.4) else 0)}
 
 
 def make_plan(seed, index, tier, sub):
@@ -280,6 +289,36 @@ def make_plan(seed, index, tier, sub):
         threads[j]['after'] = rng.randrange(j)
         if rng.random() < 0.7:
           threads[j]['forget_at'] = rng.randint(5, 400)
+  # shared-object focus: several threads sit inside the *same* context object at the same time while some of
+  # them make calls under an unspecified status - whatever such a call does to "the current context" must not
+  # be visible through the shared object
+  frng = random.Random('C16focus:%s:%s:%s:%s' % (seed, index, tier, sub))
+  if nthreads >= 2 and frng.random() < 0.15:
+    if not shared:
+      shared = ['ENABLED']
+    if shared[0] == 'UNSPECIFIED':
+      shared[0] = frng.choice(['ENABLED', 'DISABLED'])
+
+    def focus(link):
+      if link['kind'] == 'internal' and frng.random() < 0.8:
+        link['ctx'] = 'shared:0'
+      elif link['kind'] in ('plain', 'plain_try', 'with') and frng.random() < 0.5:
+        link.pop('status', None)
+        link.pop('ctxref', None)
+        link['kind'] = 'unspec'
+      for ch in link['spec']['children']:
+        focus(ch)
+    for tp in threads:
+      for root in tp['roots']:
+        if root['kind'] != 'deep':
+          focus(root)
+      # ... and the first root of every thread runs inside the shared object
+      r0 = tp['roots'][0]
+      if r0['kind'] != 'internal':
+        tp['roots'][0] = {'kind': 'internal', 'catch': True, 'fn': frng.choice(NODE_NAMES), 'ctx': 'shared:0',
+                          'by_default': True, 'ur': False,
+                          'spec': {'id': r0['spec']['id'] + 'f', 'children': [dict(r0, catch=True)], 'raise_at': None,
+                                   'raise_kind': 0, 'local': None, 'first_in_block': None, 'forkp': False}}
   plan = {
       'prop': 'C16', 'threads': threads, 'shared': shared,
       'ctx_copy': rng.random() < 0.25,
@@ -391,6 +430,7 @@ class Harness(object):
     self.boom = mod.Boom
     self.abort = mod.Abort
     self.frozen = mod.Frozen
+    self.check = mod.Check
     self.user_file = mod.__file__
     self.stats = {'nodes': 0, 'generated_nodes': 0, 'exc_crossings': 0, 'caught': 0,
                   'fallback_nodes': 0, 'to_graph_failed': 0, 'status_checks': 0,
@@ -500,10 +540,38 @@ class Harness(object):
       self.viol('S3' if exp == 'ENABLED' else 'S2',
                 'node %s: status observed by a property getter before the first call of the function is %s, expected %s'
                 % (spec['id'], _status_name(nc), exp), sig='noncall-status-%s-for-%s' % (_status_name(nc), exp))
+    if spec.get('forkp'):
+      self.fork_probe(spec)
     # abstract state (for the evidence): the modelled status stacks of all threads
     if len(self.abstract) < 400:
       self.abstract.add(repr(sorted((t.tid, [e if not isinstance(e, tuple) else 'ctx' for e in t.expect])
                                     for t in self.ts.values())))
+
+  def fork_probe(self, spec):
+    """The process forks inside the node (a forking data loader, multiprocessing's
+    fork start method): the child continues on a copy of this thread, inside
+    the same regions, and must see the same current context."""
+    import os
+    st = self._st()
+    with sched.atomic(self.sim):
+      exp = self.cur_ctx(st)
+      r, w = os.pipe()
+      pid = os.fork()
+      if pid == 0:
+        try:
+          c = self.ag_ctx.control_status_ctx()
+          os.write(w, ('%d:%s' % (1 if c is exp else 0, _status_name(c))).encode())
+        finally:
+          os._exit(0)
+      os.close(w)
+      data = os.read(r, 200).decode()
+      os.close(r)
+      os.waitpid(pid, 0)
+    self.stats['fork_probes'] = self.stats.get('fork_probes', 0) + 1
+    want = '1:%s' % _status_name(exp)
+    if data != want:
+      self.viol('S2', 'node %s: a process forked inside the node sees %r as the current context, the forking '
+                'thread sees %r (same object: 1/0, status)' % (spec['id'], data, want), sig='fork-child-status')
 
   def mid(self, spec):
     self._check_status(self._st(), spec, 'mid')
@@ -523,12 +591,14 @@ class Harness(object):
     """Is this an exception the workload raised itself?  A Frozen exception
     may legitimately arrive as the AttributeError its rejected attribute
     assignment produced (malt annotates exceptions on their way up)."""
-    if isinstance(e, (self.boom, self.abort, self.frozen)):
+    if isinstance(e, (self.boom, self.abort, self.frozen, self.check)):
       return True
     seen = 0
     c = e
     while c is not None and seen < 6:
-      if isinstance(c, self.frozen):
+      # (an exception type whose constructor malt cannot replay - e.g. a subclass of AssertionError - arrives
+      # re-created as the documented StagingError, with the original as its context)
+      if isinstance(c, (self.frozen, self.check)):
         return True
       c = c.__context__ or c.__cause__
       seen += 1
@@ -553,7 +623,9 @@ class Harness(object):
         self.viol('S2', 'blockfn %s: inside its `with` block the current context is not the block\'s object (%s)'
                   % (spec['id'], _status_name(c)), sig='blockfn-in')
       return
-    if c is blk_ctx:
+    # (a block object that was already current when the function was called - re-entered by the block - is
+    # legitimately current again after the block)
+    if c is blk_ctx and (getattr(st, 'blk', None) or {}).get('before') is not blk_ctx:
       self.viol('S1', 'blockfn %s: after leaving its `with` block the block\'s context (%s) is still current'
                 % (spec['id'], _status_name(c)), sig='blockfn-after-still-block')
       return
@@ -604,7 +676,7 @@ class Harness(object):
 
   def _raise(self, spec):
     k = spec.get('raise_kind')
-    raise (self.abort if k == 1 else self.frozen if k == 2 else self.boom)(spec['id'])
+    raise (self.abort if k == 1 else self.frozen if k == 2 else self.check if k == 3 else self.boom)(spec['id'])
 
   def lam_body(self, spec):
     """Body of the lambda node: same protocol as the def nodes, driven from
@@ -716,7 +788,7 @@ class Harness(object):
       feats = _feats(malt, link['feats'])
       if link.get('blockfn'):
         bspec = dict(link['blockfn'], id=spec['id'], ur=link['ur'])
-        st.blk = {'link': link, 'pexp': st.pending[-1][1] if st.pending else None}
+        st.blk = {'link': link, 'pexp': st.pending[-1][1] if st.pending else None, 'before': self.cur_ctx(st)}
         try:
           return malt.convert(recursive=link['rec'], optional_features=feats,
                               user_requested=link['ur'])(self.mod.blockfn)(bspec)
